@@ -105,3 +105,41 @@ Proof. vm_compute. repeat split. Qed.
 Print Assumptions C16_bitmap_refines_mark.
 Print Assumptions C16_new_region_refines.
 Print Assumptions C16_precise_words.
+
+(* ================================================================== the region layer and the other first accessors
+   (Impl/Dirty.v run_xstep, Proofs/C05Root.v; C05_xstep_is_step in Properties/C05.v carries C16_precise over) *)
+From VM Require Proofs.C05Root.
+
+Theorem C16_xmodel_ok : forall hm xs rs, wf rs ->
+  ok_hist ok_C16_step (map geom_of rs) (view rs) (map kind_of (map (lower rs) xs)) (C05Root.run_xhist hm rs xs) = true.
+Proof. exact C05Root.C16_xmodel_ok_lemma. Qed.
+
+(* REGION layer (Bytes<MemoryRegionAddress>::read_exact_volatile_from, in-memory source): a request that FAILS - target
+   out of range, or the source shorter than the request - stores nothing, calls mark_dirty not at all and leaves the
+   state as it was (the documented exception concerns a failing DESCRIPTOR read only) *)
+Theorem C16_region_exact_read_failure_marks_nothing : forall hm rs ri cnt addr srclen rs' out,
+  run_xstep hm rs (XRegion ri (OReadExactFrom cnt addr srclen)) = (rs', out) ->
+  o_ok out = false -> rs' = rs /\ o_effs out = [].
+Proof. exact C05Root.region_exact_read_failure_lemma. Qed.
+
+(* ... and an accepted one writes and marks exactly [addr, addr + cnt) *)
+Theorem C16_region_exact_read_success_exact : forall hm rs ri r cnt addr srclen rs' out,
+  nth_error rs ri = Some r ->
+  run_xstep hm rs (XRegion ri (OReadExactFrom cnt addr srclen)) = (rs', out) ->
+  o_ok out = true ->
+  o_effs out = [{| e_r := ri; e_woff := addr; e_wn := cnt; e_moff := bm_at 0 addr; e_mlen := cnt |}]
+  /\ addr + cnt <= r_size r /\ cnt <= srclen.
+Proof. exact C05Root.region_exact_read_success_lemma. Qed.
+
+Example C16_region_layer_nonvacuous :
+  let r := {| r_start := 0; r_size := 12288; r_ps := 4096; r_tracked := true; r_dirty := [false; false; false] |} in
+  (* a 0x1800-byte exact read at 0x1000 from a 16-byte source: refused, nothing marked *)
+  (let '(rs', out) := run_xstep 0 [r] (XRegion 0 (OReadExactFrom 6144 4096 16)) in
+   o_ok out = false /\ map r_dirty rs' = [[false; false; false]]) /\
+  (let '(rs', out) := run_xstep 0 [r] (XRegion 0 (OReadExactFrom 6144 4096 6144)) in
+   o_ok out = true /\ map r_dirty rs' = [[false; true; true]]).
+Proof. vm_compute. repeat split. Qed.
+
+Print Assumptions C16_xmodel_ok.
+Print Assumptions C16_region_exact_read_failure_marks_nothing.
+Print Assumptions C16_region_exact_read_success_exact.
